@@ -279,10 +279,11 @@ prop('C11', [
     handles.r_wrap_target,
     misc.r_args,
     models.r_copy,
+    models.r_manager_copy,
 ],
     'sign and roles in dd.bdd._copy_bdd and dd._copy._copy_bdd; rebuild '
     'through ite on the target variable.',
-    'behaviour when the target lacks a variable.',
+    'copies of diagrams over more than three variables.',
     'path-sensitive sign/role/domain dataflow')
 prop('C12', [
     sign.r_sign,
